@@ -853,6 +853,35 @@ func runC10(c *Ctx) {
 	c.rule("K2", "package safecast contains no instruction that can panic", 1)
 	c.rule("K3", "the 10 conversion functions and the 12 kinds of the IConvertable constraint are all present", 2)
 
+	// K4: "returns the source value when that lies in the target type's range …; monotonic": the result is a function of the
+	// value and of the two types. No function of the package reads or writes a package-level variable: an answer memoised
+	// "for the last type seen" (two atomics that are not published together) makes one goroutine's conversion depend on the
+	// types other goroutines are converting at that moment, and an in-range value next to a 64-bit boundary is compared as
+	// a float. (The interpreter behind K1 refuses such a function as outside its subset: K4 says why.)
+	c.rule("K4", "the conversions are pure: no function of package safecast reads or writes a package-level variable", 1)
+	{
+		bad := ""
+		nf := 0
+		for _, f := range c.srcFuncs("safecast") {
+			if f.Blocks == nil || f.Name() == "init" {
+				continue
+			}
+			nf++
+			allInstrs(f, func(in ssa.Instruction) {
+				var ops []*ssa.Value
+				for _, o := range in.Operands(ops) {
+					if o == nil || *o == nil {
+						continue
+					}
+					if g, ok := (*o).(*ssa.Global); ok && g.Pkg != nil && strings.HasSuffix(g.Pkg.Pkg.Path(), "/safecast") {
+						bad = c.ipos(in) + " (" + g.Name() + " in " + fname(outermost(f)) + ")"
+					}
+				}
+			})
+		}
+		c.check(nf > 0 && bad == "", "K4", "safecast/no-package-state", "-", "no function of the package touches a package-level variable",
+			"a conversion helper reads or writes the package-level variable at "+bad+": what a conversion answers then depends on what was converted before — or, with several goroutines, at the same moment: a memo of 'the kind of the last type seen' whose two halves are not published together hands an int64 conversion the answer for float64, and an in-range value next to a 64-bit boundary saturates (ToInt64(int64(MaxInt64-1)) is MaxInt64); +Inf compared as an integer wraps")
+	}
 	arch := c.GOARCH
 	z := c10Sizes{intBits: 64}
 	if arch == "386" || arch == "arm" {
